@@ -92,6 +92,10 @@ func DES3DecryptData(key, data []byte, e etype.EType) ([]byte, error) {
 // DES3DecryptMessage decrypts the message provided using DES3 and methods specific to the etype provided.
 // The integrity of the message is also verified.
 func DES3DecryptMessage(key, ciphertext []byte, usage uint32, e etype.EType) ([]byte, error) {
+	// The ciphertext must hold at least the confounder and the checksum
+	if len(ciphertext) < e.GetConfounderByteSize()+e.GetHMACBitLength()/8 {
+		return nil, errors.New("ciphertext too short")
+	}
 	//Derive the key
 	k, err := e.DeriveKey(key, common.GetUsageKe(usage))
 	if err != nil {
